@@ -137,8 +137,8 @@ def body():
                         out[:, j] = T.T.dot(loc)
                     return out
 
-                segA = {"segments": [3]} if pi % 2 else {}
-                segB = {"segments": [0]} if pi % 3 == 1 else {}
+                segA = {"segments": [3]} if pi % 2 else {"swapped_normals": [3]}     # whole-grid trial spaces: normals of domain 3 swapped
+                segB = {"segments": [0]} if pi % 3 == 1 else ({"swapped_normals": [0]} if pi % 3 == 2 else {})
                 spA = {"P1": api.function_space(gA, "P", 1, include_boundary_dofs=True, **segA), "DP0": api.function_space(gA, "DP", 0, **segA),
                        "RWG": api.function_space(gA, "RWG", 0, include_boundary_dofs=True, **segA)}
                 spB = {"P1": api.function_space(gB, "P", 1, include_boundary_dofs=True, **segB), "DP0": api.function_space(gB, "DP", 0, **segB), "DP1": api.function_space(gB, "DP", 1, **segB),
